@@ -264,6 +264,7 @@ def run(ctx):
     has_diff_faithful(ctx, "R06-d")
     single_feed(ctx, "R06-e")
     files_guard(ctx, "R06-f")
+    original_text_lookup_ignores_the_kind_of_input(ctx, "R06-h")
 
 
 # ---------------------------------------------------------------------------------------------
@@ -603,3 +604,39 @@ def files_guard(ctx, rid):
             r.violation(rid, "FilesEmitter: changed text not written", "text differs but no write on a success path",
                         ["%s:%d" % (f.file, f.line)])
     r.floor(rid, n, 1, "writing paths in FilesEmitter")
+
+
+def original_text_lookup_ignores_the_kind_of_input(ctx, rid):
+    """R06-h: what the emit modes compare against is found the same way for a file and for standard input"""
+    p, r = ctx.p, ctx.r
+    r.rule(rid, "ParseSess::first_newline_was_crlf and ParseSess::get_original_snippet (the two functions that recover, from the "
+                "source map, what the input looked like before rustc normalised it) hand the FileName they are given to the "
+                "source-map lookup as it is: neither they nor a private helper of theirs branches on the *variant* of that "
+                "FileName.  Standard input is registered in the source map like a file; an answer that differs for "
+                "`FileName::Stdin` makes `rustfmt < x.rs` and `rustfmt --emit stdout x.rs` print different bytes (CRLF detection) or "
+                "report a difference that files mode would not write")
+    n = 0
+    for nm in ("first_newline_was_crlf", "get_original_snippet"):
+        f = p.named(nm, within="parse::session::ParseSess")
+        if f is None:
+            r.undecidable(rid, "ParseSess::%s not found" % nm)
+            continue
+        n += 1
+        unit = [f]
+        for c in f.calls():
+            h = p.fns.get(c.resolved or "")
+            if h is not None and h.crate == f.crate and h.id.startswith("rustfmt_nightly::parse::session::") and h not in unit:
+                unit.append(h)
+        unit += [g for g in p.by_crate["rustfmt_nightly"] if any(g.id.startswith(u.id + "::{closure") for u in unit)]
+        bad = []
+        for g in unit:
+            for bb, i, st in g.stmts():
+                if st[0] == "=" and st[2][0] == "discr" and str(st[2][2]).endswith("file_lines::FileName"):
+                    bad.append((g, st[3]))
+        r.instance(rid, "ParseSess::%s treats every kind of FileName alike" % nm, "violation" if bad else "ok", "%s:%d" % (f.file, f.line),
+                   "%d bodies" % len(unit))
+        if bad:
+            r.violation(rid, "ParseSess::%s answers differently depending on the kind of FileName" % nm,
+                        "a `match` / `let … else` on the variant of the file name decides the answer before the source map is asked: "
+                        "standard input gets another answer than the same bytes in a file", ["%s:%d" % (bad[0][0].file, bad[0][1])])
+    r.floor(rid, n, 2, "functions recovering the un-normalised input")
